@@ -263,11 +263,19 @@ func c13JA3(c *Ctx, ja3 *ssa.Function) {
 	for name := range other {
 		c.Violate("ja3-fields", "JA3 reads ClientHelloInfo."+name, p.Pos(ja3.Pos()), "the JA3 string is built from a field that is not part of the specification's five")
 	}
+	// the sections may be put together at the very end: return strings.Join([]string{version, ciphers, …}, ","); then the
+	// order is the order of that list, each element depending on exactly one field
+	joined := c13JoinedSections(ja3, recv)
 	for i, name := range order {
 		if !c.Check(first[name] != nil, "ja3-fields", "JA3 reads "+name, p.Pos(ja3.Pos()), "", "JA3 does not read ClientHelloInfo."+name) {
 			continue
 		}
 		if i == 0 {
+			continue
+		}
+		if joined != nil {
+			ok := len(joined) == len(order) && joined[i-1] == order[i-1] && joined[i] == name
+			c.Check(ok, "ja3-field-order", order[i-1]+" before "+name, p.InstrPos(first[name]), "sections joined in the specification's order", "the sections joined into the JA3 string are "+strings.Join(joined, ",")+", not the specification's order")
 			continue
 		}
 		prev := first[order[i-1]]
@@ -538,7 +546,7 @@ func c13Unmarshal(c *Ctx) {
 		for _, b := range part.Blocks {
 			for _, in := range b.Instrs {
 				if s, ok := in.(*ssa.Store); ok {
-					if fa, ok := s.Addr.(*ssa.FieldAddr); ok && fieldNameOf(fa) == "extensions" && fa.X == ssa.Value(part.Params[0]) {
+					if fa, ok := s.Addr.(*ssa.FieldAddr); ok && fieldNameOf(fa) == c13ExtField(p) && fa.X == ssa.Value(part.Params[0]) {
 						if st != nil {
 							c.Violate("ja3-wire-order", "unmarshal stores extensions once", p.InstrPos(s), "more than one store to clientHelloMsg.extensions")
 						}
@@ -704,7 +712,7 @@ func c13Info(c *Ctx) {
 	if !c.Anchor(fn != nil, "ja3-field-pairing", "(*tls.serverHandshakeState).clientHelloInfo") {
 		return
 	}
-	want := map[string]string{"Version": "vers", "CipherSuites": "cipherSuites", "Extensions": "extensions", "SupportedCurves": "supportedCurves", "SupportedPoints": "supportedPoints", "ServerName": "serverName"}
+	want := map[string]string{"Version": "vers", "CipherSuites": "cipherSuites", "Extensions": c13ExtField(p), "SupportedCurves": "supportedCurves", "SupportedPoints": "supportedPoints", "ServerName": "serverName"}
 	got := map[string]string{}
 	// the literal may be built in clientHelloInfo itself or in a helper it hands hs.clientHello to
 	builders := []*ssa.Function{fn}
@@ -875,4 +883,96 @@ func c13UnmarshalParts(um *ssa.Function) []*ssa.Function {
 		}
 	}
 	return parts
+}
+
+// c13ExtField: the field of clientHelloMsg this fork added to remember the extension types in wire order: "extensions",
+// or – when it was renamed – the only []uint16 field besides the standard library's cipherSuites.
+func c13ExtField(p *Program) string {
+	nt := p.Type(tlsRel, "clientHelloMsg")
+	if nt == nil {
+		return "extensions"
+	}
+	st, ok := nt.Underlying().(*types.Struct)
+	if !ok {
+		return "extensions"
+	}
+	var cands []string
+	for i := 0; i < st.NumFields(); i++ {
+		f := st.Field(i)
+		if f.Name() == "extensions" {
+			return "extensions"
+		}
+		if sl, isSl := f.Type().Underlying().(*types.Slice); isSl && f.Name() != "cipherSuites" {
+			if b, isB := sl.Elem().Underlying().(*types.Basic); isB && b.Kind() == types.Uint16 && NamedOf(sl.Elem()) == nil {
+				cands = append(cands, f.Name())
+			}
+		}
+	}
+	if len(cands) == 1 {
+		return cands[0]
+	}
+	return "extensions"
+}
+
+// c13JoinedSections: when every return of fn is strings.Join(<list literal>, ","), the ClientHelloInfo field each element
+// of the list is computed from ("?" when it is not exactly one); nil when fn is not of that form.
+func c13JoinedSections(fn *ssa.Function, recv ssa.Value) []string {
+	rets := Returns(fn)
+	if len(rets) != 1 {
+		return nil
+	}
+	call, ok := RetVals(rets[0])[0].(*ssa.Call)
+	if !ok || !CalleeIs(call, "strings", "Join") {
+		return nil
+	}
+	if sep, _ := ConstString(call.Call.Args[1]); sep != "," {
+		return nil
+	}
+	els := variadicArgs(call.Call.Args[0])
+	if len(els) == 0 {
+		return nil
+	}
+	var out []string
+	for _, el := range els {
+		deps := map[string]bool{}
+		seen := map[ssa.Value]bool{}
+		var walk func(v ssa.Value, d int)
+		walk = func(v ssa.Value, d int) {
+			if v == nil || seen[v] || d > 40 {
+				return
+			}
+			seen[v] = true
+			switch x := v.(type) {
+			case *ssa.FieldAddr:
+				if n := NamedOf(x.X.Type()); n != nil && n.Obj().Name() == "ClientHelloInfo" {
+					deps[fieldNameOf(x)] = true
+					return
+				}
+				walk(x.X, d+1)
+			case *ssa.Alloc:
+				for _, sv := range StoredValues(x) {
+					walk(sv, d+1)
+				}
+			case *ssa.Const, *ssa.Global, *ssa.Parameter, *ssa.Function, *ssa.Builtin:
+			default:
+				if in, isI := v.(ssa.Instruction); isI {
+					for _, op := range in.Operands(nil) {
+						if op != nil && *op != nil {
+							walk(*op, d+1)
+						}
+					}
+				}
+			}
+		}
+		walk(el, 0)
+		if len(deps) == 1 {
+			for k := range deps {
+				out = append(out, k)
+			}
+		} else {
+			out = append(out, "?")
+		}
+	}
+	_ = recv
+	return out
 }
